@@ -60,7 +60,7 @@ Qed.
 
 Theorem resolve_plain f p cp : plainp p = true -> resolve f p = inl cp -> cp = p.
 Proof.
-  intros H. unfold resolve. rewrite (has_abs_plain p H), (flatten_plain p H). intros Hw.
+  intros H. unfold resolve. rewrite (has_abs_plain p H). destruct (path_max_exceeded p); [discriminate|]. rewrite (flatten_plain p H). intros Hw.
   now apply (walk_plain f p [] cp H) in Hw.
 Qed.
 
@@ -110,7 +110,7 @@ Qed.
 
 Theorem resolve_out_plain f p cp : resolve f p = inl cp -> plainp cp = true.
 Proof.
-  unfold resolve. destruct (has_abs p); [discriminate|]. destruct (flatten p) as [comps|] eqn:Hf; [|discriminate].
+  unfold resolve. destruct (has_abs p); [discriminate|]. destruct (path_max_exceeded p); [discriminate|]. destruct (flatten p) as [comps|] eqn:Hf; [|discriminate].
   apply walk_out_plain; [eapply flatten_noslash; eassumption|reflexivity].
 Qed.
 
